@@ -1,7 +1,134 @@
-(* C19 — JSON generation and parsing are faithful inverses (stub while the proofs are being written). *)
+(* C19 — JSON generation and parsing are faithful inverses.
+   Only statements, closed by [exact], and their assumptions.
+
+   Model: model/Json.v (RFC 8259 codec = what encoding/json must do for the values Zn hands it; the mapping of
+   pkg/common/elem2json.go, repaired by fixes/C19-1.patch and C19-2.patch; stdlib/json/json.go entry points) and
+   model/JsonNum.v (double <-> number token).  Numbers: the codec theorems hold for EVERY RFC 8259 number token;
+   the end-to-end theorems hold for every finite double, which the model spells by its exact decimal expansion
+   (Go prints the shortest decimal that reads back: same number, other spelling; compared per run). *)
 From Coq Require Import List ZArith Bool.
 Import ListNotations.
-From Zn.model Require Import Json JsonNum.
+From Zn.model Require Import Json JsonNum JsonGrammar.
+From Zn.proofs Require Import JsonProofs JsonMapProofs JsonNumProofs JsonApiProofs JsonGrammarProofs.
 Open Scope Z_scope.
-Example C19_example_stub : run_parse [123;125] = [1;5;0].
+
+(* Every JSON value — nested arrays/objects with ORDERED members, strings over all Unicode scalar values (quotes,
+   backslashes, control characters, astral characters), any well-formed number token, booleans, null — is read
+   back from its rendering as the same value. *)
+Theorem C19_codec_roundtrip : forall v, wf v = true -> parse (render v) = Some v.
+Proof. exact parse_render. Qed.
+Print Assumptions C19_codec_roundtrip.
+
+(* ... also when embedded: followed by anything that may follow a value *)
+Theorem C19_codec_roundtrip_embedded : forall v, wf v = true -> forall fuel rest,
+  (depth v < fuel)%nat -> followb rest = true -> parse_value fuel (render v ++ rest) = POk v rest.
+Proof. exact parse_value_render. Qed.
+Print Assumptions C19_codec_roundtrip_embedded.
+
+(* The rendered text is in the grammar of RFC 8259 (model/JsonGrammar.v: the ABNF as inductive predicates, written
+   independently of renderer and parser): as a value and as a complete JSON text. *)
+Theorem C19_render_wellformed : forall v, wf v = true -> g_value (render v) /\ g_json (render v).
+Proof. intros v H. split; [exact (render_wellformed v H) | exact (render_is_json_text v H)]. Qed.
+Print Assumptions C19_render_wellformed.
+
+(* The parser terminates within its fuel on EVERY input: "out of fuel" is not a possible result. *)
+Theorem C19_parse_never_out_of_fuel : forall s, parse_text s <> PFuel.
+Proof. exact parse_text_never_out_of_fuel. Qed.
+Print Assumptions C19_parse_never_out_of_fuel.
+
+(* every finite double has a well-formed number token (its exact decimal expansion) that reads back as the same double *)
+Theorem C19_number_bridge : forall b, num_ok64 b = true ->
+  exists t, fmt64 b = Some t /\ wf_num t = true /\ num_val t = Some b.
+Proof. exact fmt64_bridge. Qed.
+Print Assumptions C19_number_bridge.
+
+(* element -> JSON value -> element is the identity on JSON-representable values (no function/object, finite doubles,
+   texts of scalar values, distinct keys), dictionary members in order. *)
+Theorem C19_mapping_inverse : forall e, representable num_ok64 e = true ->
+  exists j, to_json fmt64 e = Some j /\ wf j = true /\ of_json num_val j = Some e.
+Proof. exact mapping_inverse_all. Qed.
+Print Assumptions C19_mapping_inverse.
+
+(* 解析JSON(生成JSON(d)) = d, keys in keyOrder = document order. *)
+Theorem C19_generate_then_parse : forall m, representable num_ok64 (EDict m) = true ->
+  exists t, generate_json [EDict m] = Value (EStr t) /\ parse_json [EStr t] = Value (EDict m).
+Proof. exact roundtrip_all. Qed.
+Print Assumptions C19_generate_then_parse.
+
+(* for ANY document: the keys of the resulting dictionary are the document's keys in document order *)
+Theorem C19_document_order : forall t kvs m, parse t = Some (JObj kvs) -> nodupb (map fst kvs) = true ->
+  parse_json [EStr t] = Value (EDict m) -> map fst m = map fst kvs.
+Proof. exact parse_json_document_order. Qed.
+Print Assumptions C19_document_order.
+
+(* values JSON cannot represent (NaN, +Inf, -Inf anywhere inside) raise the catchable exception *)
+Theorem C19_nonfinite_is_catchable_exception : forall m, has_bad_num num_ok64 (EDict m) = true ->
+  generate_json [EDict m] = Exception /\ catchable (generate_json [EDict m]) = true.
+Proof. intros m H. rewrite (nonfinite_is_exception m H). split; reflexivity. Qed.
+Print Assumptions C19_nonfinite_is_catchable_exception.
+
+(* malformed JSON (no parse) raises the catchable exception: not Crash, not OutOfFuel, not a value *)
+Theorem C19_malformed_is_catchable_exception : forall t, parse t = None ->
+  parse_json [EStr t] = Exception /\ catchable (parse_json [EStr t]) = true.
+Proof. intros t H. rewrite (malformed_is_exception t H). split; reflexivity. Qed.
+Print Assumptions C19_malformed_is_catchable_exception.
+
+(* whatever the text: an exception or a dictionary *)
+Theorem C19_parse_outcomes : forall t,
+  parse_json [EStr t] = Exception \/ exists m, parse_json [EStr t] = Value (EDict m).
+Proof. exact parse_json_outcomes. Qed.
+Print Assumptions C19_parse_outcomes.
+
+Theorem C19_generate_outcomes : forall args,
+  (exists t, generate_json args = Value (EStr t)) \/ generate_json args = Exception \/ generate_json args = ParamError.
+Proof. exact generate_json_outcomes. Qed.
+Print Assumptions C19_generate_outcomes.
+
+Theorem C19_top_level_must_be_object : forall t v, parse t = Some v ->
+  match v with JObj _ | JNull => False | _ => True end -> parse_json [EStr t] = Exception.
+Proof. exact top_level_not_object_is_exception. Qed.
+Print Assumptions C19_top_level_must_be_object.
+
+Theorem C19_number_out_of_range : forall t v, parse t = Some v ->
+  decode_element num_val v = None -> parse_json [EStr t] = Exception.
+Proof. exact number_out_of_range_is_exception. Qed.
+Print Assumptions C19_number_out_of_range.
+
+(* ---- non-vacuity and the pinned-tree refutation ---- *)
+Definition ex_dict : elem :=     (* 乙=1, 甲=text with a quote, a backslash, a line feed, U+1F600 and <, B=empty list, A=[k=-0, n=空, t=真], C=0.1, D=1e-7 *)
+  EDict [([20057], ENum 0x3ff0000000000000); ([30002], EStr [97; 34; 92; 10; 0x1F600; 60]); ([66], EArr []);
+         ([65], EDict [([107], ENum 0x8000000000000000); ([110], ENull); ([116], EBool true)]);
+         ([67], ENum 0x3fb999999999999a); ([68], ENum 0x3e7ad7f29abcaf48)].
+
+Example C19_example_representable : representable num_ok64 ex_dict = true.
+Proof. vm_compute. reflexivity. Qed.
+
+Example C19_example_roundtrip :
+  match generate_json [ex_dict] with Value t => parse_json [t] | o => o end = Value ex_dict.
+Proof. vm_compute. reflexivity. Qed.
+
+(* keys 乙, 甲, B, A (values 1..4) are rendered in keyOrder by the repaired mapping ... *)
+Definition ex_order : elem :=
+  EDict [([20057], ENum 0x3ff0000000000000); ([30002], ENum 0x4000000000000000);
+         ([66], ENum 0x4008000000000000); ([65], ENum 0x4010000000000000)].
+Example C19_example_keyorder :
+  generate_json [ex_order] =
+  Value (EStr [123; 34;20057;34; 58; 49; 44; 34;30002;34; 58; 50; 44; 34;66;34; 58; 51; 44; 34;65;34; 58; 52; 125]).
+Proof. vm_compute. reflexivity. Qed.
+
+(* ... whereas the pinned code (Go map, keys sorted by encoding/json) gives the order A, B, 乙, 甲 *)
+Example C19_document_order_refuted :
+  option_map render (marshal fmt64 sort_members (build_plain_pinned ex_order)) =
+  Some [123; 34;65;34; 58; 52; 44; 34;66;34; 58; 51; 44; 34;20057;34; 58; 49; 44; 34;30002;34; 58; 50; 125].
+Proof. vm_compute. reflexivity. Qed.
+
+Example C19_example_malformed : parse_json [EStr [123; 34; 97; 34; 58; 49; 44; 125]] = Exception.   (* object a:1 followed by a dangling comma *)
+Proof. vm_compute. reflexivity. Qed.
+Example C19_example_nonfinite : generate_json [EDict [([97], EArr [ENum 0x7ff8000000000000])]] = Exception.
+Proof. vm_compute. reflexivity. Qed.
+Example C19_example_surrogates :       (* a surrogate pair escape followed by a lone high surrogate escape -> U+1F600, U+FFFD *)
+  parse_json [EStr [123;34;97;34;58;34; 92;117;100;56;51;100; 92;117;100;101;48;48; 92;117;100;56;51;100; 34;125]]
+  = Value (EDict [([97], EStr [0x1F600; 0xFFFD])]).
+Proof. vm_compute. reflexivity. Qed.
+Example C19_example_range : parse_json [EStr [123;34;97;34;58;49;101;52;48;48;125]] = Exception.   (* a: 1e400 *)
 Proof. vm_compute. reflexivity. Qed.
